@@ -38,8 +38,8 @@ PLAN = {p: std() for p in TITLES}
 for _p in ("C01", "C07", "C10", "C11", "C14"):
     PLAN[_p] = std(mcq=[DAQ], mct=[DAT])
 PLAN["C16"] = {
-    "quick": dict(invocations=160, mc=[dict(module="MC_Daacfind.tla", cfg="MC_Daacfind_quick.cfg")]),
-    "thorough": dict(invocations=2000, mc=[dict(module="MC_Daacfind.tla", cfg="MC_Daacfind_thorough.cfg", timeout=2400)]),
+    "quick": dict(invocations=400, mc=[dict(module="MC_Daacfind.tla", cfg="MC_Daacfind_quick.cfg")]),
+    "thorough": dict(invocations=4000, mc=[dict(module="MC_Daacfind.tla", cfg="MC_Daacfind_thorough.cfg", timeout=2400)]),
 }
 
 # ---------------------------------------------------------------------------------------------
